@@ -572,12 +572,15 @@ type typedRootInput struct {
 
 const typedRootDoc = `{"swagger":"2.0","info":{"title":"t","version":"1"},
  "definitions":{"Leaf":{"type":"object","deprecated":true,"const":"x","properties":{"v":{"type":"string","writeOnly":true,"x-go-name":"V"}}},
-   "D":{"type":"object","not":{"type":"object","properties":{"l":{"$ref":"#/definitions/Leaf"}},"allOf":[{"$ref":"#/definitions/Leaf"}]}}},
+   "D":{"type":"object","not":{"type":"object","properties":{"l":{"$ref":"#/definitions/Leaf"}},"allOf":[{"$ref":"#/definitions/Leaf"}]}},
+   "Pos":{"$ref":"http://json-schema.org/draft-04/schema#/definitions/positiveInteger"},
+   "HasPos":{"type":"object","properties":{"n":{"$ref":"http://json-schema.org/draft-04/schema#/definitions/positiveInteger"}}}},
  "parameters":{"P":{"in":"body","name":"b","schema":{"type":"object","properties":{"l":{"$ref":"#/definitions/Leaf"}},"items":{"$ref":"#/definitions/Leaf"}}}},
  "responses":{"R":{"description":"r","schema":{"type":"array","items":{"$ref":"#/definitions/Leaf"},"additionalProperties":{"$ref":"#/definitions/Leaf"}}}},
  "paths":{"/p":{"get":{"responses":{"200":{"description":"ok","schema":{"type":"object","properties":{"d":{"$ref":"#/definitions/D"}}}}}}}}}`
 
-var typedRootRefs = []string{"#/parameters/P/schema", "#/responses/R/schema", "#/definitions/D/not", "#/paths/~1p/get/responses/200/schema", "#/definitions/D"}
+var typedRootRefs = []string{"#/parameters/P/schema", "#/responses/R/schema", "#/definitions/D/not", "#/paths/~1p/get/responses/200/schema", "#/definitions/D",
+	"#/definitions/HasPos", "#/definitions/Pos"}
 
 func checkTypedRoot(in typedRootInput) string {
 	root := new(spec.Swagger)
@@ -594,6 +597,17 @@ func checkTypedRoot(in typedRootInput) string {
 		b, err := json.Marshal(sch)
 		return string(b), err
 	}
+	// a caller's own copy of a definition that is nothing but a reference to another document (an absolute URL with a fragment: a
+	// built-in meta-schema, held by every default cache), expanded against the shared root
+	expandCopy := func() (string, error) {
+		sch := root.Definitions["Pos"]
+		if err := spec.ExpandSchema(&sch, root, nil); err != nil {
+			return "", err
+		}
+		b, err := json.Marshal(sch)
+		return string(b), err
+	}
+	wantCopy, errCopy := expandCopy()
 	want := map[string]string{}
 	for _, r := range typedRootRefs {
 		w, err := expand(r)
@@ -616,6 +630,13 @@ func checkTypedRoot(in typedRootInput) string {
 					b, err := json.Marshal(root)
 					if err != nil || string(b) != string(before) {
 						msgs <- "the encoding of the shared read-only root differs from the sequential one while other goroutines expand against it"
+						return
+					}
+					continue
+				}
+				if errCopy == nil && g%3 == 1 && k%2 == 1 {
+					if got, err := expandCopy(); err != nil || got != wantCopy {
+						msgs <- "ExpandSchema of a caller's copy of a definition (a reference to another document) against the shared typed root differs from its sequential answer"
 						return
 					}
 					continue
